@@ -80,7 +80,20 @@ func Revoke() {
 	if F > 0 {
 		vx.FaultCap(F)
 	}
+	// reads=1: the session also keeps decrypting the record it wrote before the revocation (at arbitrary instants
+	// between the encrypts); reads must not postpone the moment the revocation takes effect for new records
+	reads := vx.Param("reads") == 1
 	for i := 0; i < N; i++ {
+		if reads {
+			for j := 0; j < 2; j++ {
+				if vx.Choice("read_old_record", 2) == 1 {
+					tick()
+					out, err := sess.Decrypt(env.Ctx, *first)
+					vx.Assert("C05.old_record_still_decrypts", vx.And(err == nil, vx.BytesEq(out, []byte{7})))
+					vx.Reach("C05.read_between_encrypts")
+				}
+			}
+		}
 		ts, tn := tick()
 		before := faultsSoFar()
 		storeFaultsBefore := vx.Faulted("ext", "meta.Store")
